@@ -272,6 +272,18 @@ class G:
         self.leaves_of[r] = self.leaves_of.get(lhs, frozenset()) | self.leaves_of.get(rhs, frozenset())
         return r
 
+    def joinp(self, lhs: str, rhs: str, pred=None, opts=None) -> str:
+        """A join with every `apply` option (explicit preferred engine, require_preferred_engine)."""
+        r = self.fresh()
+        opts = opts or self.opts()
+        self.emit(["joinp", r, lhs, rhs, pred or ["plit", "T"], opts])
+        self.cols[r] = self.cols[lhs] | self.cols[rhs]
+        self.eng[r] = self.eng[rhs] if opts[1] == "-" else opts[1]
+        if lhs in self.has_chain or rhs in self.has_chain:
+            self.has_chain.add(r)
+        self.leaves_of[r] = self.leaves_of.get(lhs, frozenset()) | self.leaves_of.get(rhs, frozenset())
+        return r
+
     def mat(self, target: str, name=None) -> str:
         r = self.fresh()
         self.emit(["mat", r, target, name or f"M{self.n}"])
@@ -954,7 +966,11 @@ def prog_multi(seed: int, n_ops: int = 8, *, three: float = 0.3, prefs: float = 
             if u is None:
                 continue
             pred = g.pred(g.cols[t] | g.cols[u], 1) if rng.random() < 0.4 and (g.cols[t] | g.cols[u]) else None
-            r = g.join(t, u, pred, bt=rng.random() < 0.7, tr=rng.random() < 0.6)
+            if rng.random() < 0.3:
+                r = g.joinp(t, u, pred, g.opts(rng.choice(["-"] + engines), rng.random() < 0.7, rng.random() < 0.6,
+                                               rng.random() < 0.2))
+            else:
+                r = g.join(t, u, pred, bt=rng.random() < 0.7, tr=rng.random() < 0.6)
         observed.append(r)
     if rng.random() < 0.1:
         # a join inside ONE engine whose predicate uses a function only the other engine family
@@ -1017,6 +1033,30 @@ def prog_history(seed: int, n_ops: int = 6, n_events: int = 10) -> G:
                 continue
             r = g.chain(base, rng.choice(cands))
         rels.append(r)
+    if rng.random() < 0.25:
+        # scenario: a materialization directly after a transfer INTO an iteration engine whose result is
+        # EMPTY (the payload the transfer hook produces is an empty row sequence), shared by two trees
+        # that are processed one after the other: the materialization must gain that payload at the
+        # first processing and the hook must not run again
+        if not two and "e2" not in g.kind:
+            g.engine("e2", "iter")
+        srcs = [x for x in g.cols if g.cols[x] and g.eng[x] != "e0" and x in g.leaves_of.get(x, frozenset([x]))]
+        if not srcs:
+            srcs = [g.leaf("e1" if two else "e2", cols=sorted(rng.sample(BASE_COLS, 2)))]
+        src = rng.choice(srcs)
+        c = rng.choice(sorted(g.cols[src]))
+        none = g.apply(src, ["sel", ["pfn", "lt", "*", ["ref", c], ["lit", -5]]], g.cols[src])
+        tr = g.transfer(none, "e0")
+        m = g.mat(tr)
+        mats.append(m)
+        u1 = g.apply(m, ["dedup"], g.cols[m])
+        u2 = g.apply(m, ["sort", ["term", ["ref", c], "asc"]], g.cols[m])
+        for k2, u in enumerate((u1, u2)):
+            pz = f"z{k2}"
+            g.emit(["process", pz, u])
+            g.emit(["show", m])
+            g.emit(["exec", pz])
+            g.emit(["sem", u])
     for i in range(n_events):
         r = rng.choice(rels + mats)
         k = rng.random()
@@ -1138,6 +1178,9 @@ def prog_illformed(seed: int, n_ops: int = 5) -> G:
             both_missing = sorted(set(BASE_COLS + NEW_TAGS) - cols - g.cols[u])
             if not both_missing or (g.cols[u] & cols & NONKEY):
                 cmd = ["apply", r, t, ["sel", ["pfn", "lt", "*", ["ref", m], ["lit", 1]]], anyopts]
+            elif rng.random() < 0.6:
+                # the same request through `apply` with an explicit preferred engine / every option
+                cmd = ["joinp", r, t, u, ["pfn", "lt", "*", ["ref", both_missing[0]], ["lit", 1]], anyopts]
             else:
                 cmd = ["join", r, t, u, ["pfn", "lt", "*", ["ref", both_missing[0]], ["lit", 1]],
                        rng.choice(["T", "F"]), rng.choice(["T", "F"])]
@@ -1359,6 +1402,12 @@ def prog_values(seed: int, n_ops: int = 6) -> G:
     if rng.random() < 0.6 and len(g.cols[side]) > 1:
         keep = sorted(g.cols[side])[: rng.choice([1, 2])]
         side_tw.append((g.apply(side, ["proj", *keep], frozenset(keep)), g.apply(side, ["proj", *keep], frozenset(keep))))
+    if rng.random() < 0.5:
+        # a side operand that contributes WHERE terms of its own (the join's payload is then assembled
+        # from an operand's payload plus extra terms: nothing of the operand's may be edited in place)
+        c = rng.choice(sorted(g.cols[side]))
+        sop = ["sel", ["pfn", "ge", "*", ["ref", c], ["lit", 0]]]
+        side_tw.append((g.apply(side, sop, g.cols[side]), g.apply(side, sop, g.cols[side])))
     g.emit(["snap"])
     if rng.random() < 0.35 and len(side_tw) > 1:
         # scenario: (calculation over a SQL table) JOIN (projected SQL table), built twice, hashed
@@ -1424,4 +1473,17 @@ def prog_values(seed: int, n_ops: int = 6) -> G:
             g.emit(["sqlexec", r])
             g.emit(["sqlexec", r])
         g.emit(["snap"])
+    # a bare SQL leaf joined with each side operand, compiled twice (leaf payloads are shared objects)
+    base = next((x for x in g.cols if g.eng[x] == "e0" and x != side and x in g.leaves_of.get(x, frozenset([x]))), None)
+    if base is not None:
+        for x, _ in side_tw[1:]:
+            if not (g.cols[x] & g.cols[base] & NONKEY) and \
+                    not (g.leaves_of.get(x, frozenset()) & g.leaves_of.get(base, frozenset())):
+                j = g.join(base, x, None)
+                g.emit(["snap"])
+                g.emit(["sqlexec", j])
+                g.emit(["snap"])
+                g.emit(["sqlexec", j])
+                g.emit(["sqlexec", base])
+                g.emit(["snap"])
     return g
